@@ -4,7 +4,7 @@ REG_DRAFT = dict(
     technique='bounded-exhaustive enumeration of every core-fragment program up to a weighted size, executed on the real interpreter and by an independent reference interpreter (differential)',
     text="Every program of the core grammar of gvlib/coregen.py (let/assignment/+=, println(string_repr(e)), if/else, guarded while, for-in, break, continue, return, "
          "named functions f(a)/h(a,b) with guarded recursion, one closure, match over Option/Result/a user enum, value-position if/match; <=2 functions, <=3 top-level "
-         "statements, <=3 statements per block) whose weighted size is <=5 with block depth <=2 (quick) or <=6 with depth <=3 (thorough) is generated exactly once, "
+         "statements, <=3 statements per block, block depth <=3) whose weighted size is <=5 (quick, about 59 k programs) or <=6 (thorough, about 850 k) is generated exactly once, "
          "simplest first, run by the real interpreter (`run` job, tick limit 20000) and by gvlib/refint.py, an environment-passing interpreter written from the manual pages. "
          "stdout must be identical and the outcome kind (ok | exception | assertion) equal. Exhaustive within the grammar and bound; no sampling.",
     note="Only the fragment where every reasonable semantics agrees is generated (DESIGN.md section 5): sibling operands have at most one effectful member, captured variables are "
@@ -45,6 +45,8 @@ def features(items):
                 feats.add("bool-op")
             elif e[2] == "^":
                 feats.add("string-concat")
+            if jumps_out(e[1]) or jumps_out(e[3]) or returns_out(e[1]) or returns_out(e[3]):
+                feats.add("jump-in-operand")
             expr(e[1], path, scopes)
             expr(e[3], path, scopes)
             return
@@ -197,6 +199,18 @@ def jumps_out(t):
     return False
 
 
+def returns_out(t):
+    if isinstance(t, tuple):
+        if t and t[0] == "Return":
+            return True
+        if t and t[0] == "Lambda":
+            return False
+        return any(returns_out(x) for x in t)
+    if isinstance(t, list):
+        return any(returns_out(x) for x in t)
+    return False
+
+
 def diff_kind(ref_out, garden_out):
     a, b = ref_out.split("\n"), garden_out.split("\n")
     if len(b) > len(a):
@@ -279,7 +293,7 @@ def garden_kind(r):
 
 
 def run(ctx):
-    size, depth = (5, 2) if ctx.quick else (6, 3)
+    size, depth = (5, 3) if ctx.quick else (6, 3)
     ctx.bound("weighted_size", size)
     ctx.bound("block_depth", depth)
     ctx.bound("top_level_statements", coregen.MAX_TOP)
